@@ -330,8 +330,28 @@ def gcfgOfBits (bs : List Bool) : GCfg :=
 
 def DState.glang (st : DState) : GLang := { types := st.lang, cfg := st.canonCfg, canon := st.canon }
 
+/-- `(src id ty) | (const name id ty) | (op name ty) | (app f x ty) | (lam (p…) body ty) | (pvar id ty)` -/
+partial def aexpr? : Sexp → Option AExpr
+  | .list [.atom "src", i, t] => do pure (.src (← Sexp.nat? i) none (← Sexp.term? t))
+  | .list [.atom "const", .atom n, i, t] => do pure (.src (← Sexp.nat? i) (some n) (← Sexp.term? t))
+  | .list [.atom "op", .atom n, t] => do pure (.op n (← Sexp.term? t))
+  | .list [.atom "app", f, x, t] => do pure (.app (← aexpr? f) (← aexpr? x) (← Sexp.term? t))
+  | .list [.atom "lam", .list ps, b, t] => do pure (.lam (← ps.mapM Sexp.nat?) (← aexpr? b) (← Sexp.term? t))
+  | .list [.atom "pvar", i, t] => do pure (.pvar (← Sexp.nat? i) (← Sexp.term? t))
+  | _ => none
+
 def stepGraph (st : DState) (e : Sexp) : Option (DState × String) :=
   match e with
+  | .list [.atom "gexpra", .atom bits, ex] => do
+    -- the graph of an expression given as a tree (expanded composite operators: abstractions in argument position)
+    let ex ← aexpr? ex
+    let cfg := gcfgOfBits (bits.toList.map (· == 'T'))
+    let G := st.glang
+    let g0 := initGraph G cfg
+    let (g1, r) := g0.fresh
+    match addExprA G cfg (.b r) none { g := g1 } ex none false with
+    | .error ge => pure (st, "E:" ++ showGErr ge)
+    | .ok (s, out) => pure (st, s!"ok root _:{r} out _:{out} " ++ showTriples s.g.allTriples)
   | .list [.atom "gexpr", .atom bits, n, s] => do
     let n ← Sexp.nat? n
     let s ← Sexp.str? s
